@@ -520,7 +520,66 @@ func checkMethods(e *env) error {
 			return fmt.Errorf("Bound() = %v, min/max of the vertices is %v %v", b, mn, mx)
 		}
 	}
+	// a polygon / multi-polygon is bounded by its non-empty outer rings
+	switch e.g.(type) {
+	case orb.Polygon, orb.MultiPolygon, orb.Ring:
+		if vs := outerVertices(e.g); len(vs) > 0 {
+			mn, mx := vs[0], vs[0]
+			for _, p := range vs {
+				mn = orb.Point{math.Min(mn[0], p[0]), math.Min(mn[1], p[1])}
+				mx = orb.Point{math.Max(mx[0], p[0]), math.Max(mx[1], p[1])}
+			}
+			if b.Min != mn || b.Max != mx {
+				return fmt.Errorf("Bound() = %v, min/max of the outer ring vertices is %v %v", b, mn, mx)
+			}
+		}
+	}
 	return nil
+}
+
+// centroidModel: own centroid of the simple kinds (mean of points; length-weighted segment
+// midpoints; area-weighted fan of an implicitly closed ring). ok is false where the value is
+// ill-conditioned or the kind is not modelled.
+func centroidModel(g orb.Geometry) (c orb.Point, ok bool) {
+	switch v := g.(type) {
+	case orb.Point:
+		return v, true
+	case orb.MultiPoint:
+		if len(v) == 0 {
+			return c, false
+		}
+		for _, p := range v {
+			c[0] += p[0]
+			c[1] += p[1]
+		}
+		return orb.Point{c[0] / float64(len(v)), c[1] / float64(len(v))}, true
+	case orb.LineString:
+		total := 0.0
+		for i := 0; i+1 < len(v); i++ {
+			d := math.Hypot(v[i+1][0]-v[i][0], v[i+1][1]-v[i][1])
+			c[0] += (v[i][0] + v[i+1][0]) / 2 * d
+			c[1] += (v[i][1] + v[i+1][1]) / 2 * d
+			total += d
+		}
+		if total < 1e-6 {
+			return c, false
+		}
+		return orb.Point{c[0] / total, c[1] / total}, true
+	case orb.Ring:
+		a, scale := shoelace(v)
+		if math.Abs(a) < 1e-3*(1+scale) || len(v) < 3 {
+			return c, false
+		}
+		n := len(v)
+		for i := 0; i < n; i++ {
+			p, q := v[i], v[(i+1)%n]
+			w := p[0]*q[1] - q[0]*p[1]
+			c[0] += (p[0] + q[0]) * w
+			c[1] += (p[1] + q[1]) * w
+		}
+		return orb.Point{c[0] / (6 * a), c[1] / (6 * a)}, true
+	}
+	return c, false
 }
 
 // ---------------------------------------------------------------- measures
@@ -595,9 +654,12 @@ func checkPlanarArea(e *env) error {
 	} else {
 		stats.Class("skip:non-finite planar area")
 	}
-	if p, ok := e.g.(orb.Point); ok && e.mod {
-		if !closeTo(c[0], p[0], 1+math.Abs(p[0]), relModel) || !closeTo(c[1], p[1], 1+math.Abs(p[1]), relModel) {
-			return fmt.Errorf("centroid of point %v is %v", p, c)
+	if e.mod {
+		if want, ok := centroidModel(e.g); ok {
+			sc := 1 + maxAbs(e.g)
+			if !closeTo(c[0], want[0], sc*sc, 1e-7) || !closeTo(c[1], want[1], sc*sc, 1e-7) {
+				return fmt.Errorf("centroid = %v, own centroid model = %v", c, want)
+			}
 		}
 	}
 	// own shoelace model for the value as a whole
@@ -721,7 +783,23 @@ func checkGeoLength(e *env) error {
 	if err := checkLength(e, "geo.LengthHaversine", geo.LengthHaversine, geo.DistanceHaversine); err != nil {
 		return err
 	}
-	return checkLength(e, "geo.LengthHaversign", geo.LengthHaversign, geo.DistanceHaversine)
+	if err := checkLength(e, "geo.LengthHaversign", geo.LengthHaversign, geo.DistanceHaversine); err != nil {
+		return err
+	}
+	// independent anchors: own distance formulas (1e-9 relative; the haversine of nearly antipodal
+	// segments is ill-conditioned, there 1 m per segment is allowed)
+	if e.mod && lonLatDomain(e.g) {
+		segs := float64(len(vertices(e.g)))
+		own := lengthModel(e.g, ownGeoDistance)
+		if got := geo.Length(e.ro); !closeTo(got, own, 1+own, relModel) {
+			return fmt.Errorf("geo.Length = %v, own equirectangular model = %v", got, own)
+		}
+		own = lengthModel(e.g, ownHaversine)
+		if got := geo.LengthHaversine(e.ro); math.Abs(got-own) > relModel*(1+own)+segs {
+			return fmt.Errorf("geo.LengthHaversine = %v, own haversine model = %v", got, own)
+		}
+	}
+	return nil
 }
 
 func checkGeoArea(e *env) error {
@@ -737,7 +815,66 @@ func checkGeoArea(e *env) error {
 	if !closeTo(got, want, scale, relSum) {
 		return fmt.Errorf("geo.Area = %v, combination of geo.SignedArea of the rings = %v", got, want)
 	}
+	// independent anchor: own spherical ring area
+	if e.mod && lonLatDomain(e.g) {
+		oscale := 0.0
+		own, _ := areaModel(e.g, func(r orb.Ring) float64 { a, s := ownGeoRingArea(r); oscale += s; return a }, true)
+		if !closeTo(got, own, 1+oscale, relModel) {
+			return fmt.Errorf("geo.Area = %v, own spherical area model = %v", got, own)
+		}
+	}
 	return nil
+}
+
+const ownEarthRadius = 6378137.0
+
+// ownGeoRingArea: -R^2/2 * sum over the distinct vertices of the implicitly closed ring of
+// (lon[i+1] - lon[i-1]) * sin(lat[i]); also returns the error scale sum (|lon[i+1]| + |lon[i-1]| + 2|lon[i]|) * |sin(lat[i])|.
+func ownGeoRingArea(r orb.Ring) (area, scale float64) {
+	vs := []orb.Point(r)
+	if len(vs) < 3 {
+		return 0, 0
+	}
+	if vs[0] == vs[len(vs)-1] {
+		vs = vs[:len(vs)-1]
+	}
+	n := len(vs)
+	rad := math.Pi / 180
+	for i := 0; i < n; i++ {
+		prev, next := vs[(i+n-1)%n], vs[(i+1)%n]
+		sin := math.Sin(vs[i][1] * rad)
+		area += (next[0]*rad - prev[0]*rad) * sin
+		// longitudes are converted before they are subtracted, and an implementation may split the
+		// term of a vertex in two parts through the vertex's own longitude (orb does for the first
+		// vertex): the rounding error scales with the longitudes themselves, not with their difference
+		scale += (math.Abs(next[0]) + math.Abs(prev[0]) + 2*math.Abs(vs[i][0])) * rad * math.Abs(sin)
+	}
+	k := ownEarthRadius * ownEarthRadius / 2
+	return -area * k, scale * k
+}
+
+// ownGeoDistance: equirectangular approximation (what geo.Distance documents).
+func ownGeoDistance(a, b orb.Point) float64 {
+	rad := math.Pi / 180
+	dLat := (a[1] - b[1]) * rad
+	dLon := math.Abs((a[0] - b[0]) * rad)
+	if dLon > math.Pi {
+		dLon = 2*math.Pi - dLon
+	}
+	x := dLon * math.Cos((a[1]+b[1])/2*rad)
+	return ownEarthRadius * math.Hypot(dLat, x)
+}
+
+// ownHaversine: great-circle distance by the haversine formula.
+func ownHaversine(a, b orb.Point) float64 {
+	rad := math.Pi / 180
+	s1 := math.Sin((a[1] - b[1]) * rad / 2)
+	s2 := math.Sin((a[0] - b[0]) * rad / 2)
+	h := s1*s1 + math.Cos(a[1]*rad)*math.Cos(b[1]*rad)*s2*s2
+	if h > 1 {
+		h = 1
+	}
+	return 2 * ownEarthRadius * math.Atan2(math.Sqrt(h), math.Sqrt(1-h))
 }
 
 // distModel: minimum distance from q to the vertices (points) / segments (everything else).
@@ -937,7 +1074,7 @@ func expClip(b orb.Bound, g orb.Geometry) orb.Geometry {
 		return unwrapMPoly(clip.MultiPolygon(b, v))
 	case orb.Bound:
 		r := clip.Bound(b, v)
-		if r.IsEmpty() {
+		if r.Min[0] > r.Max[0] || r.Min[1] > r.Max[1] { // own emptiness test, not orb's IsEmpty
 			return nil
 		}
 		return r
@@ -951,6 +1088,49 @@ func expClip(b orb.Bound, g orb.Geometry) orb.Geometry {
 		return unwrapColl(out)
 	}
 	panic("expClip")
+}
+
+// anchorVertices: the vertices of a non-collection value that an independent anchor may ask about:
+// every point of a point kind; for line and ring kinds only the end points of positive-length
+// segments (zero-length parts are optional artefacts); outerOnly restricts polygons to outer rings.
+func anchorVertices(g orb.Geometry, outerOnly bool) []orb.Point {
+	var out []orb.Point
+	path := func(ps []orb.Point) {
+		for i := range ps {
+			if (i > 0 && ps[i-1] != ps[i]) || (i+1 < len(ps) && ps[i+1] != ps[i]) {
+				out = append(out, ps[i])
+			}
+		}
+	}
+	switch v := g.(type) {
+	case orb.Point:
+		out = append(out, v)
+	case orb.MultiPoint:
+		out = append(out, v...)
+	case orb.LineString:
+		path(v)
+	case orb.Ring:
+		path(v)
+	case orb.MultiLineString:
+		for _, l := range v {
+			path(l)
+		}
+	case orb.Polygon:
+		for i, r := range v {
+			if i == 0 || !outerOnly {
+				path(r)
+			}
+		}
+	case orb.MultiPolygon:
+		for _, p := range v {
+			for i, r := range p {
+				if i == 0 || !outerOnly {
+					path(r)
+				}
+			}
+		}
+	}
+	return out
 }
 
 // outerVertices: the vertices that make up the extent of g (polygons: outer ring only).
@@ -1012,6 +1192,32 @@ func checkClip(e *env) error {
 			return nil
 		}
 		return fmt.Errorf("clip.Geometry(%v, g) differs from the typed clip with unwrapping: %s; got %s want %s", e.box, why, show(got), show(want))
+	}
+	// independent anchors (no library code): every vertex of the result lies in the closed box, and
+	// every vertex of a point / line kind or of an outer ring that lies strictly inside the box is kept
+	if e.mod {
+		tol := relModel * (1 + maxAbs(e.g, e.box.Min, e.box.Max))
+		have := map[orb.Point]bool{}
+		for _, p := range vertices(got) {
+			have[p] = true
+			if p[0] < e.box.Min[0]-tol || p[0] > e.box.Max[0]+tol || p[1] < e.box.Min[1]-tol || p[1] > e.box.Max[1]+tol {
+				return fmt.Errorf("clip.Geometry(%v, g) returned vertex %v outside the box", e.box, p)
+			}
+		}
+		// (points of a point kind are kept on the boundary too: the box is closed)
+		switch v := e.g.(type) {
+		case orb.Point, orb.MultiPoint:
+			for _, p := range vertices(v) {
+				if p[0] >= e.box.Min[0] && p[0] <= e.box.Max[0] && p[1] >= e.box.Min[1] && p[1] <= e.box.Max[1] && !have[p] {
+					return fmt.Errorf("clip.Geometry(%v, g) lost point %v of the closed box; got %s", e.box, p, show(got))
+				}
+			}
+		}
+		for _, p := range anchorVertices(e.g, true) {
+			if p[0] > e.box.Min[0] && p[0] < e.box.Max[0] && p[1] > e.box.Min[1] && p[1] < e.box.Max[1] && !have[p] {
+				return fmt.Errorf("clip.Geometry(%v, g) lost vertex %v that lies strictly inside the box; got %s", e.box, p, show(got))
+			}
+		}
 	}
 	// multi-geometries are the combination of their members too
 	switch v := e.fresh().(type) {
@@ -1347,6 +1553,14 @@ func expCover(g orb.Geometry, z maptile.Zoom) (maptile.Set, error) {
 	panic("expCover")
 }
 
+func addTiles(dst, src maptile.Set) {
+	for t, ok := range src {
+		if ok {
+			dst[t] = true
+		}
+	}
+}
+
 func setEq(a, b maptile.Set) (bool, string) {
 	for t, ok := range a {
 		if ok && !b[t] {
@@ -1404,18 +1618,98 @@ func checkTilecover(e *env) error {
 	if ok, why := setEq(got, want); !ok {
 		return fmt.Errorf("tilecover.Geometry(g, %d) differs from the typed cover / union of the member covers: %s (%d vs %d tiles)", z, why, len(got), len(want))
 	}
+	// independent anchor: the tile (own mercator arithmetic) of every vertex of a point / line kind or
+	// of a ring is covered; vertices within 1e-9 of a tile edge or beyond +-85 latitude are not asked
+	{
+		n := float64(uint64(1) << uint(z))
+		frac := func(p orb.Point) (fx, fy float64, ok bool) {
+			if math.Abs(p[1]) > 85 || math.Abs(p[0]) >= 180 {
+				return 0, 0, false
+			}
+			sin := math.Sin(p[1] * math.Pi / 180)
+			return (p[0]/360 + 0.5) * n, (0.5 - math.Log((1+sin)/(1-sin))/(4*math.Pi)) * n, true
+		}
+		ask := func(p orb.Point) error {
+			fx, fy, ok := frac(p)
+			if !ok || math.Abs(fx-math.Round(fx)) < 1e-9 || math.Abs(fy-math.Round(fy)) < 1e-9 {
+				return nil
+			}
+			if t := (maptile.Tile{X: uint32(math.Floor(fx)), Y: uint32(math.Floor(fy)), Z: z}); !got[t] {
+				return fmt.Errorf("tilecover.Geometry(g, %d) does not contain tile %v of vertex %v", z, t, p)
+			}
+			return nil
+		}
+		// a vertex of a line / ring is asked about only when a neighbour is measurably elsewhere in tile space
+		path := func(ps []orb.Point) error {
+			for i, p := range ps {
+				fx, fy, ok := frac(p)
+				far := false
+				for _, j := range []int{i - 1, i + 1} {
+					if j >= 0 && j < len(ps) {
+						if gx, gy, ok2 := frac(ps[j]); ok && ok2 && (math.Abs(gx-fx) > 1e-9 || math.Abs(gy-fy) > 1e-9) {
+							far = true
+						}
+					}
+				}
+				if far {
+					if err := ask(p); err != nil {
+						return err
+					}
+				}
+			}
+			return nil
+		}
+		var err error
+		switch v := e.g.(type) {
+		case orb.Point:
+			err = ask(v)
+		case orb.MultiPoint:
+			for _, p := range v {
+				if err == nil {
+					err = ask(p)
+				}
+			}
+		case orb.LineString:
+			err = path(v)
+		case orb.Ring:
+			err = path(v)
+		case orb.MultiLineString:
+			for _, l := range v {
+				if err == nil {
+					err = path(l)
+				}
+			}
+		case orb.Polygon:
+			for _, r := range v {
+				if err == nil {
+					err = path(r)
+				}
+			}
+		case orb.MultiPolygon:
+			for _, p := range v {
+				for _, r := range p {
+					if err == nil {
+						err = path(r)
+					}
+				}
+			}
+		}
+		if err != nil {
+			return err
+		}
+	}
 	// multi-geometries: the cover is the union of the member covers
 	var union maptile.Set
 	switch v := e.fresh().(type) {
 	case orb.MultiPoint:
 		union = maptile.Set{}
 		for _, p := range v {
-			union.Merge(tilecover.Point(p, z))
+			addTiles(union, tilecover.Point(p, z))
 		}
 	case orb.MultiLineString:
 		union = maptile.Set{}
 		for _, l := range v {
-			union.Merge(tilecover.LineString(l, z))
+			addTiles(union, tilecover.LineString(l, z))
 		}
 	case orb.MultiPolygon:
 		union = maptile.Set{}
@@ -1425,7 +1719,7 @@ func checkTilecover(e *env) error {
 				union = nil
 				break
 			}
-			union.Merge(s)
+			addTiles(union, s)
 		}
 	}
 	if union != nil {
